@@ -4,6 +4,7 @@ import (
 	"crypto/sha256"
 	"encoding/hex"
 	"fmt"
+	"sync"
 	"time"
 	"unicode/utf8"
 
@@ -78,13 +79,30 @@ var domTime = []time.Time{
 	time.Unix(253402300799, 999999999).UTC(),
 }
 
-var (
-	edSigner   = world.NewFixedSigner("c12")
-	secpPriv   crypto.PrivKey
-	secpPub    crypto.PubKey
-	secpAddr   []byte
-	signerOpts []types.Signer
-)
+// The keys are built on first use and not at package initialisation: a history child (history_test.go) must reach its
+// first decode without the harness having touched any key or address code of the repository.
+type c12Keys struct {
+	ed, ed2  *world.FixedSigner
+	secpPriv crypto.PrivKey
+	secpPub  crypto.PubKey
+	secpAddr []byte
+}
+
+var keysOnce = sync.OnceValue(func() *c12Keys {
+	k := &c12Keys{ed: world.NewFixedSigner("c12"), ed2: world.NewFixedSigner("c12-other")}
+	var err error
+	k.secpPriv, err = crypto.UnmarshalSecp256k1PrivateKey(sha("verif-c12-secp"))
+	if err != nil {
+		panic(err)
+	}
+	k.secpPub = k.secpPriv.GetPublic()
+	k.secpAddr = types.KeyAddress(k.secpPub)
+	return k
+})
+
+func edS() *world.FixedSigner  { return keysOnce().ed }
+func ed2S() *world.FixedSigner { return keysOnce().ed2 }
+func secpAddrB() []byte        { return keysOnce().secpAddr }
 
 const (
 	signerNone          = 0
@@ -98,34 +116,24 @@ const (
 	nSignerOpts         = 8
 )
 
-func init() {
-	var err error
-	secpPriv, err = crypto.UnmarshalSecp256k1PrivateKey(sha("verif-c12-secp"))
-	if err != nil {
-		panic(err)
-	}
-	secpPub = secpPriv.GetPublic()
-	secpAddr = types.KeyAddress(secpPub)
-}
-
 func signerOpt(i int) types.Signer {
 	switch i {
 	case signerNone:
 		return types.Signer{}
 	case signerEd:
-		return types.Signer{PubKey: edSigner.Pub(), Address: append([]byte(nil), edSigner.Addr()...)}
+		return types.Signer{PubKey: edS().Pub(), Address: append([]byte(nil), edS().Addr()...)}
 	case signerEdNilAddr:
-		return types.Signer{PubKey: edSigner.Pub()}
+		return types.Signer{PubKey: edS().Pub()}
 	case signerEdShortAddr:
-		return types.Signer{PubKey: edSigner.Pub(), Address: []byte{0x09}}
+		return types.Signer{PubKey: edS().Pub(), Address: []byte{0x09}}
 	case signerNoKeyAddr32:
-		return types.Signer{Address: append([]byte(nil), edSigner.Addr()...)}
+		return types.Signer{Address: append([]byte(nil), edS().Addr()...)}
 	case signerNoKeyEmptyAdr:
 		return types.Signer{Address: []byte{}}
 	case signerNoKeyAddr1:
 		return types.Signer{Address: []byte{0x09}}
 	case signerSecp:
-		return types.Signer{PubKey: secpPub, Address: append([]byte(nil), secpAddr...)}
+		return types.Signer{PubKey: keysOnce().secpPub, Address: append([]byte(nil), secpAddrB()...)}
 	}
 	panic("signer option")
 }
@@ -134,9 +142,9 @@ func signWith(opt int, payload []byte) []byte {
 	var sig []byte
 	var err error
 	if opt == signerSecp {
-		sig, err = secpPriv.Sign(payload)
+		sig, err = keysOnce().secpPriv.Sign(payload)
 	} else {
-		sig, err = edSigner.Sign(payload)
+		sig, err = edS().Sign(payload)
 	}
 	if err != nil {
 		panic(err)
@@ -176,7 +184,7 @@ func typicalHeaderSpec() HeaderSpec {
 	for i := range s.Hashes {
 		s.Hashes[i] = bs(sha("c12-" + hashNames[i]))
 	}
-	s.Hashes[6] = bs(edSigner.Addr()) // proposer address = address of the signer
+	s.Hashes[6] = bs(edS().Addr()) // proposer address = address of the signer
 	return s
 }
 
